@@ -415,7 +415,26 @@ func c18Case(c *core.C) {
 			if r.Intn(3) == 0 {
 				callOpts.StoreOptions = &storage.StoreOptions{NoClobber: true, BackendOptions: "per-call"}
 			}
+			sparse := r.Intn(3) == 0
+			if sparse {
+				// a per-call option set with absent sections (the library falls back to defaults for them)
+				callOpts.RenderOptions, callOpts.SerializeOptions = nil, nil
+				ind = -1
+			}
 			err := m.w.WriteStreamWithOptions(c18Doc(), nopWC{&buf}, callOpts)
+			if sparse {
+				// afterwards the caller configures ITS OWN option set with the usual create-if-nil idiom; nobody else may change
+				if callOpts.RenderOptions == nil {
+					callOpts.RenderOptions = &native.RenderOptions{}
+				}
+				callOpts.RenderOptions.Indent = 2
+				if callOpts.StoreOptions == nil {
+					callOpts.StoreOptions = &storage.StoreOptions{}
+				}
+				callOpts.StoreOptions.NoClobber = true
+				trace = append(trace, "(caller then sets Indent=2, NoClobber=true on its own per-call option set)")
+				c.Cover("per-call-write-with-absent-sections")
+			}
 			c.Evals(1)
 			c.Cover("per-call-write")
 			if err != nil {
@@ -423,7 +442,7 @@ func c18Case(c *core.C) {
 				return
 			}
 			gf, gi := c18Measure(buf.Bytes())
-			if gf != f || (f == formats.SPDX23JSON && gi != ind) {
+			if gf != f || (f == formats.SPDX23JSON && ind >= 0 && gi != ind) {
 				c.Violatef("per-call-options-not-used", trace, "WriteStreamWithOptions(%s, indent %d) wrote %s with indent %d (history %v)", f, ind, gf, gi, trace)
 				return
 			}
